@@ -1,7 +1,7 @@
 SPECIFICATION Spec
 CONSTANTS
   Lists = {"ridx", "rl1", "rl2", "sidx"}
-  Faults = {"ok", "refused", "timeout", "status", "empty", "oversize", "trunc", "inv", "invown"}
+  Faults = {"ok", "refused", "timeout", "status", "empty", "oversize", "trunc", "cancel", "inv", "invown"}
   MaxRounds = 2
   CrashAnywhere = TRUE
   Defects = {"svc_strict"}
